@@ -164,16 +164,29 @@ CLEARABLE: list[tuple[str, object]] = []            # functools caches etc. (obj
 LAZY_SLOTS: list[tuple[object, str]] = []           # (module or class, attribute) that is None at start-up
 
 
+BINDINGS: list[tuple[object, str, object, object]] = []   # (owner, attribute, object bound at start-up, array copy or None)
+NAMESPACES: list[tuple[object, frozenset]] = []          # (module / class / function, attribute names at start-up)
+
+_DATA = (type(None), bool, int, float, complex, str, bytes, tuple, frozenset, dict, list, set, np.ndarray, np.generic)
+
+
 def discover_containers() -> None:
-    """Every mutable container that lives at module or class level in the geometer package (today: the two
-    `_cache` dicts and constant tables such as DISPATCHED_UFUNCS). A run starts by restoring each of them to its
-    start-up contents, so that a run is a pure function of its seed even if a later version of the library adds
-    process-wide memoisation the harness has never heard of."""
+    """Everything at module, class or function-attribute level in the geometer package that can carry state from one
+    call to the next: mutable containers (today: the two `_cache` dicts and constant tables such as
+    DISPATCHED_UFUNCS), functools caches, and every binding of a data value (None/number/tuple/array/tensor/...;
+    a memo that is rebound rather than mutated). A run starts by restoring all of it to the start-up state, so that a
+    run is a pure function of its seed even if a later version of the library adds process-wide memoisation the
+    harness has never heard of."""
     import sys
+    import types
+
+    from geometer.base import Tensor
 
     CONTAINERS.clear()
     CLEARABLE.clear()
     LAZY_SLOTS.clear()
+    BINDINGS.clear()
+    NAMESPACES.clear()
     seen: set[int] = set()
 
     def add(name, v):
@@ -186,31 +199,71 @@ def discover_containers() -> None:
             seen.add(id(v))
             CLEARABLE.append((name, v))
 
+    def bind(owner, k, v):
+        if isinstance(v, _DATA) or isinstance(v, Tensor):
+            BINDINGS.append((owner, k, v, v.copy() if isinstance(v, np.ndarray) else None))
+
+    def func(f):
+        f = getattr(f, "__func__", f)
+        f = getattr(f, "__wrapped__", f) if not isinstance(f, types.FunctionType) else f
+        if isinstance(f, types.FunctionType) and str(getattr(f, "__module__", "")).startswith("geometer"):
+            NAMESPACES.append((f, frozenset(vars(f))))
+
     for mname in sorted(sys.modules):
         if not (mname == "geometer" or mname.startswith("geometer.")):
             continue
         m = sys.modules[mname]
+        NAMESPACES.append((m, frozenset(vars(m))))
         for k in sorted(vars(m)):
             v = vars(m)[k]
             if k.startswith("__"):
                 continue
             if v is None:
                 LAZY_SLOTS.append((m, k))   # a lazily initialised module-level singleton starts out as None
+            bind(m, k, v)
             if isinstance(v, type) and v.__module__ == mname:
+                NAMESPACES.append((v, frozenset(vars(v))))
                 for ck in sorted(vars(v)):
                     if ck.startswith("__"):
                         continue
                     cv = vars(v)[ck]
                     if cv is None and ck not in getattr(v, "__annotations__", {}):
                         LAZY_SLOTS.append((v, ck))
+                    bind(v, ck, cv)
                     add(f"{mname}.{k}.{ck}", cv)
                     f = getattr(cv, "__func__", cv)
                     add(f"{mname}.{k}.{ck}", f)
+                    func(cv)
+                    if isinstance(cv, property):
+                        for g in (cv.fget, cv.fset):
+                            if g is not None:
+                                func(g)
             else:
                 add(f"{mname}.{k}", v)
+                if getattr(v, "__module__", None) == mname:
+                    func(v)
 
 
 def reset_process_state() -> None:
+    for owner, names in NAMESPACES:
+        extra = [k for k in vars(owner) if k not in names and not k.startswith("__")]
+        for k in extra:
+            try:
+                delattr(owner, k)
+            except Exception:  # noqa: BLE001
+                pass
+    for owner, attr, obj, arr in BINDINGS:
+        try:
+            if vars(owner).get(attr, obj) is not obj or attr not in vars(owner):
+                setattr(owner, attr, obj)
+            if arr is not None and not (obj.shape == arr.shape and obj.dtype == arr.dtype
+                                        and obj.tobytes() == arr.tobytes()):
+                if obj.shape != arr.shape:
+                    obj.resize(arr.shape, refcheck=False)
+                obj.flags.writeable = True
+                np.copyto(obj, arr, casting="unsafe")
+        except Exception:  # noqa: BLE001
+            pass
     for _name, live, saved in CONTAINERS:
         if isinstance(live, dict):
             live.clear()
@@ -314,8 +367,21 @@ def meta(o) -> dict | None:
 # recipes
 
 
+_LAYOUT = None   # memory layout requested by the recipe being built (recipe key "layout"), see World.build
+
+
+def _lay(arr):
+    """Same values, another memory layout: users hand over transposed views, Fortran-ordered results of other
+    libraries, column-major imports. np.array(copy=True) inside the constructors keeps such a layout (order="K")."""
+    if _LAYOUT == "F" and arr.ndim >= 2:
+        return np.asfortranarray(arr)
+    if _LAYOUT == "M" and arr.ndim >= 2:   # the strides of the last two axes exchanged (a transposed matrix view)
+        return np.ascontiguousarray(np.swapaxes(arr, -1, -2)).swapaxes(-1, -2)
+    return arr
+
+
 def _arr(a, dt="i"):
-    return np.array(a, dtype=DT[dt])
+    return _lay(np.array(a, dtype=DT[dt]))
 
 
 def _ref(world, r):
@@ -413,15 +479,15 @@ def _b_transfcoll(w, ms, dt="f"):
 
 
 def _b_ctransf(w, re, im):
-    return Transformation(np.array(re, dtype=float) + 1j * np.array(im, dtype=float))
+    return Transformation(_lay(np.array(re, dtype=float) + 1j * np.array(im, dtype=float)))
 
 
 def _b_ctransfcoll(w, re, im):
-    return TransformationCollection(np.array(re, dtype=float) + 1j * np.array(im, dtype=float))
+    return TransformationCollection(_lay(np.array(re, dtype=float) + 1j * np.array(im, dtype=float)))
 
 
 def _b_cquadric(w, re, im, dual=False, coll=False):
-    m = np.array(re, dtype=float) + 1j * np.array(im, dtype=float)
+    m = _lay(np.array(re, dtype=float) + 1j * np.array(im, dtype=float))
     if coll:
         return QuadricCollection(m, is_dual=dual)
     return (Conic if m.shape[-1] == 3 else Quadric)(m, is_dual=dual)
@@ -494,6 +560,7 @@ def _b_simplex(w, pts):
 
 def _b_tensor(w, a, cov=True, dt="i", layout=None):
     arr = np.array(a).astype(DT[dt])
+    layout = layout or {"F": "F", "M": "T"}.get(_LAYOUT)
     if layout == "F":
         arr = np.asfortranarray(arr)
     elif layout == "T" and arr.ndim >= 2:
@@ -512,7 +579,7 @@ def _b_ctensor(w, re, im, cov=True):
 
 
 def _b_tensorcoll(w, a, cov=True, rank=1, dt="i"):
-    return TensorCollection(np.array(a).astype(DT[dt]), covariant=cov, tensor_rank=rank)
+    return TensorCollection(_lay(np.array(a).astype(DT[dt])), covariant=cov, tensor_rank=rank)
 
 
 def _b_eps(w, n, cov=True):
@@ -553,6 +620,32 @@ def _b_alias(w, of, how, idx=None):
             return cls.from_tensor(x)
         return type(x)(x, copy=False)
     raise ValueError(how)
+
+
+def _b_twin(w, of):
+    """An object of the same class, shape and dtype as `of` with different coordinates (translated by one unit along
+    the first axis where that means something; some other tensor of the same kind otherwise)."""
+    from geometer.shapes import PolygonTensor, SegmentTensor
+
+    x = w.get(of)
+    a = np.array(x.array)          # Tensor.copy() is shallow
+    if a.dtype.kind not in "iufc" or a.size == 0:
+        raise ValueError("no twin")
+    if a.ndim >= 1 and a.shape[-1] >= 2 and np.any(a[..., -1] != 0):
+        a[..., 0] = a[..., 0] + a[..., -1]
+    else:
+        a[(0,) * a.ndim] = a[(0,) * a.ndim] + 1
+    if isinstance(x, (SegmentTensor, PolygonTensor)):
+        # the supporting line / plane is computed by the constructor
+        base = (SegmentCollection if x.free_indices else Segment) if isinstance(x, SegmentTensor) else \
+            (PolygonCollection if x.free_indices else Polygon)
+        y = base(a, copy=False)
+        if set(y.__dict__) == set(x.__dict__):
+            y.__class__ = type(x)
+        return y
+    y = x.copy()
+    y.array = a
+    return y
 
 
 def _b_diagram(w, edges=(), nodes=()):
@@ -635,9 +728,14 @@ class World:
     def build(self, recipes: list[dict]) -> list[str]:
         """Build the initial pool. A recipe that raises leaves its slot void (recorded)."""
         errs = []
+        global _LAYOUT
         for r in recipes:
             try:
-                obj = BUILDERS[r["k"]](self, *r.get("a", []), **r.get("kw", {}))
+                _LAYOUT = r.get("layout")
+                try:
+                    obj = BUILDERS[r["k"]](self, *r.get("a", []), **r.get("kw", {}))
+                finally:
+                    _LAYOUT = None
                 if r.get("poke"):
                     idx, val = r["poke"]
                     obj.array[tuple(idx)] = val   # user-level write before the history starts (see program.noisy)
